@@ -6,6 +6,9 @@ use rsjsonnet_lang::program::{Thunk, Value};
 use crate::json::Json;
 use crate::prog::{Ctx, Out};
 
+/// Abstract thunk operand meaning "the most recently produced live thunk".
+pub const LAST_THUNK: u32 = u32::MAX;
+
 #[derive(Clone, Debug, Default, PartialEq)]
 pub struct Fault {
     /// frame limit for this request only
@@ -220,8 +223,15 @@ impl<'p> Exec<'p> {
         Exec { ctx, thunks: Vec::new(), values: Vec::new(), max_stack: 500, explicit_gcs: 0 }
     }
 
+    /// `LAST_THUNK` selects the most recently produced live thunk (used right after a late load)
     fn sel_thunk(&self, h: u32) -> Option<usize> {
-        if self.thunks.is_empty() { None } else { Some(h as usize % self.thunks.len()) }
+        if self.thunks.is_empty() {
+            None
+        } else if h == LAST_THUNK {
+            Some(self.thunks.len() - 1)
+        } else {
+            Some(h as usize % self.thunks.len())
+        }
     }
     fn sel_value(&self, h: u32) -> Option<usize> {
         if self.values.is_empty() { None } else { Some(h as usize % self.values.len()) }
